@@ -2,7 +2,25 @@
 
 Engine I, differential oracle: for every (scenario, data set, query) the
 object-graph snapshot obtained under a loader configuration must be identical
-to the snapshot of the all-lazy baseline of the same query on the same data.
+to the snapshot of the all-lazy baseline of the same query on the same data
+(the baseline's related collections are themselves checked against the
+generated rows).  Documented incompatibilities (yield_per with joined
+collections / subqueryload, joined collections without unique()) must raise
+InvalidRequestError.  Failing configurations are reduced greedily (strategies
+-> lazy, deviations dropped, simplest query, first data sets) and reported
+under a structural signature ``<kind> q=<query> (<strategy>:<direction>,...)+<deviations>``.
+
+Mutations caught (private copy, VF_REPO=/tmp/wt-query):
+  * orm/context.py _should_nest_selectable: LIMIT with multi-row eager loaders no longer wraps the statement in a
+    subquery (``... and False`` on the limit branch)            -> related:children / primary-rows q=limit2 (joined:o2m,-)
+  * orm/strategies.py _SubqueryLoader._setup_outermost_orderby: relationship order_by dropped -> related:children (-,subquery:o2m)
+  * orm/strategies.py _JoinedLoader._create_eager_join: innerjoin chained below an outer join attached un-nested as a
+    real INNER JOIN (childless parents dropped)                  -> primary-rows q=all (joined,joined_inner)
+  * orm/strategies.py _SelectInLoader._load_for_path: relationship order_by dropped     -> related:children (selectin:o2m,-)
+  * orm/strategies.py _LazyLoader._emit_lazyload: order_by dropped (the baseline route itself) -> baseline-vs-rows
+Not caught, by design: selectin chunk loop skipping one parent per chunk (``our_states[chunksize + 1:]``): the
+skipped parent's collection simply stays unloaded and is lazy-loaded on access, so WHAT is loaded does not change
+(also not under raiseload('*'), which does not apply to an attribute that has its own loader option).
 """
 from __future__ import annotations
 
@@ -70,8 +88,9 @@ META = dict(
         quick="U1: <=2 parents x <=3 children (all distributions) x 3-4 grandchild patterns; U2 <=2x2 all link subsets; U3 all "
         "forests <=3 nodes; U4 <=2 companies x <=2 persons all type/company vectors; 36 assignments x all queries, "
         "deviations d=1 on 2 queries",
-        thorough="U1: <=3 parents x <=4 children x 3-4 grandchild patterns; U2 <=3x2; U3 all parent functions <=3 nodes incl. cycles "
-        "+ forests of 4; U4 <=2 companies x <=3 persons; deviations d=1 on all queries, d=2 pairs on 2 queries",
+        thorough="U1: <=3 parents x <=4 children (all distributions; 3-4 grandchild patterns up to 2x3, one beyond); U2 <=3x2; U3 all "
+        "parent functions <=3 nodes incl. cycles + forests of 4; U4 <=2 companies x <=3 persons x <=1 machine (sorted type vectors); "
+        "core data sets: deviations d=1 on all queries + d=2 pairs on one query; middle: d=1 on two queries; outer: 36 assignments x all queries",
     ),
 )
 SHARD_TIMEOUT = dict(quick=600, thorough=3000)
@@ -473,11 +492,15 @@ def _ds_u1(tier, small=False):
     if tier == "quick":
         for k, d in qw.u1_datasets(2, 2 if small else 3, 3, "cover2"):
             np_, nc = k[1], len(k[2])
+            if nc == 3 and k[3] != (3, 2, 1):
+                continue  # three children: only the pattern in which every child has a grandchild
             out.append((k, d, 0 if nc <= 2 and not small else (0 if small and nc <= 1 else 2)))
         return out
     for k, d in qw.u1_datasets(2 if small else 3, 3 if small else 4, 3, "cover"):
         np_, nc = k[1], len(k[2])
         lvl = 0 if (np_ <= 2 and nc <= 2) else (1 if (np_ <= 2 and nc <= 3) else 2)
+        if lvl == 2 and k[3] != (tuple(range(nc, 0, -1)) if nc <= 3 else (nc, nc, None)):
+            continue  # outer data sets: one grandchild pattern (every child has one / skewed for four children)
         out.append((k, d, lvl))
     return out
 
@@ -511,13 +534,15 @@ def _ds_u4(tier, small=False):
     if tier == "quick":
         for k, d in qw.u4_datasets(2, 2, 1, "sorted"):
             nc, persons, ms = k[1], k[2], k[3]
-            if small and nc == 2 and len(persons) < 2:
-                continue
-            out.append((k, d, 0 if (nc == 1 or len(persons) <= 1) else 2))
+            if len(persons) == 2 and nc == 1:
+                continue  # contained (up to an empty second company) in the two-company assignments
+            out.append((k, d, 0 if len(persons) <= 1 else 2))
         return out
-    for k, d in qw.u4_datasets(2, 3 if not small else 2, 2 if not small else 1, "sorted"):
+    for k, d in qw.u4_datasets(2, 3 if not small else 2, 1, "sorted"):
         nc, persons, ms = k[1], k[2], k[3]
-        lvl = 0 if (nc == 1 and len(persons) <= 2 and len(ms) <= 1) else (1 if len(persons) <= 2 else 2)
+        if len(persons) == 3 and nc == 1:
+            continue  # contained (up to an empty second company) in the two-company assignments
+        lvl = 0 if (nc == 1 and len(persons) <= 2) else (1 if len(persons) <= 2 else 2)
         out.append((k, d, lvl))
     return out
 
@@ -1379,13 +1404,16 @@ def run_big(tier, rec):
         base_cache = {}
         for s1 in strs:
             for s2 in ("selectin", "lazy") if tier == "quick" else ("selectin", "lazy", "joined", "subquery"):
-                cfg = (s1, s2, ())
-                problems, nontrivial, outcome = evaluate(scen, qname, cfg, data, eng, base_cache)
-                rec.case(("BIG", qname, cfg), nontrivial=nontrivial)
-                rec.count("big_dataset_runs")
-                for kind, msg in problems:
-                    rec.violation("BIG(501 parents) q=%s %s: %s" % (qname, cfg_str(cfg), kind), msg,
-                                  dict(scenario="BIG", query=qname, cfg=_cfg_json(cfg)), kind=("BIG", qname, kind, s1, s2))
+                for dev in ((), (("raiseall",),)):
+                    cfg = (s1, s2, dev)
+                    if dev and "lazy" in (s1, s2):
+                        continue  # raiseload('*') only behind full eager loading: nothing may be left to a lazy load
+                    problems, nontrivial, outcome = evaluate(scen, qname, cfg, data, eng, base_cache)
+                    rec.case(("BIG", qname, cfg), nontrivial=nontrivial)
+                    rec.count("big_dataset_runs")
+                    for kind, msg in problems:
+                        rec.violation("BIG(501 parents) q=%s %s: %s" % (qname, cfg_str(cfg), kind), msg,
+                                      dict(scenario="BIG", query=qname, cfg=_cfg_json(cfg)), kind=("BIG", qname, kind, s1, s2, dev))
     with eng.begin() as conn:
         qw.load(conn, scen.world(), {})
 
